@@ -57,6 +57,12 @@ func Root() string {
 // N picks the per-process case count for the current tier.
 func N(quick, thorough int) int {
 	if Thorough() {
+		// props/config.json "thorough_scale" (exported by the driver): cheap checks run deeper
+		if s, err := strconv.ParseFloat(os.Getenv("VERIF_THOROUGH_SCALE"), 64); err == nil && s > 0 && thorough > 0 {
+			if n := int(float64(thorough) * s); n > 0 {
+				return n
+			}
+		}
 		return thorough
 	}
 	return quick
